@@ -31,6 +31,7 @@ import (
 	"github.com/containerd/continuity/fs"
 	"github.com/containerd/errdefs"
 	"github.com/containerd/log"
+	"github.com/containerd/stargz-snapshotter/util/verifhook"
 	"github.com/moby/sys/mountinfo"
 	"golang.org/x/sync/errgroup"
 )
@@ -310,6 +311,7 @@ func (o *snapshotter) Commit(ctx context.Context, name, key string, opts ...snap
 }
 
 func (o *snapshotter) commit(ctx context.Context, isRemote bool, name, key string, opts ...snapshots.Opt) error {
+	defer verifhook.CrashPoint("snap.commit.return", name, key)
 	ctx, t, err := o.ms.TransactionContext(ctx, true)
 	if err != nil {
 		return err
@@ -380,6 +382,7 @@ func (o *snapshotter) Remove(ctx context.Context, key string) (err error) {
 		// key no longer available.
 		defer func() {
 			if err == nil {
+				verifhook.CrashPoint("snap.remove.commit", key)
 				for _, dir := range removals {
 					if err := o.cleanupSnapshotDirectory(ctx, dir); err != nil {
 						log.G(ctx).WithError(err).WithField("path", dir).Warn("failed to remove directory")
@@ -415,6 +418,7 @@ func (o *snapshotter) cleanup(ctx context.Context, cleanupCommitted bool) error 
 		return err
 	}
 
+	verifhook.CrashPoint("snap.cleanup.scan", cleanupCommitted)
 	log.G(ctx).Debugf("cleanup: dirs=%v", cleanup)
 	for _, dir := range cleanup {
 		if err := o.cleanupSnapshotDirectory(ctx, dir); err != nil {
@@ -492,6 +496,7 @@ func (o *snapshotter) getCleanupDirectories(ctx context.Context, t storage.Trans
 }
 
 func (o *snapshotter) cleanupSnapshotDirectory(ctx context.Context, dir string) error {
+	defer verifhook.CrashPoint("snap.cleanupdir.done", dir)
 
 	// On a remote snapshot, the layer is mounted on the "fs" directory.
 	// We use Filesystem's Unmount API so that it can do necessary finalization
@@ -515,6 +520,7 @@ func (o *snapshotter) createSnapshot(ctx context.Context, kind snapshots.Kind, k
 	var td, path string
 	defer func() {
 		if err != nil {
+			verifhook.CrashPoint("snap.create.failed")
 			if td != "" {
 				if err1 := o.cleanupSnapshotDirectory(ctx, td); err1 != nil {
 					log.G(ctx).WithError(err1).Warn("failed to cleanup temp snapshot directory")
@@ -537,6 +543,7 @@ func (o *snapshotter) createSnapshot(ctx context.Context, kind snapshots.Kind, k
 		}
 		return storage.Snapshot{}, fmt.Errorf("failed to create prepare snapshot dir: %w", err)
 	}
+	verifhook.CrashPoint("snap.create.mktemp", td)
 	rollback := true
 	defer func() {
 		if rollback {
@@ -572,11 +579,13 @@ func (o *snapshotter) createSnapshot(ctx context.Context, kind snapshots.Kind, k
 		return storage.Snapshot{}, fmt.Errorf("failed to rename: %w", err)
 	}
 	td = ""
+	verifhook.CrashPoint("snap.create.rename", path)
 
 	rollback = false
 	if err = t.Commit(); err != nil {
 		return storage.Snapshot{}, fmt.Errorf("commit failed: %w", err)
 	}
+	verifhook.CrashPoint("snap.create.commit", path)
 
 	return s, nil
 }
@@ -761,6 +770,7 @@ func (o *snapshotter) restoreRemoteSnapshot(ctx context.Context) error {
 		}
 	}
 
+	verifhook.CrashPoint("snap.restore.unmounted")
 	var task []snapshots.Info
 	if err := o.Walk(ctx, func(ctx context.Context, info snapshots.Info) error {
 		if _, ok := info.Labels[remoteLabel]; ok {
@@ -792,6 +802,7 @@ func (o *snapshotter) restoreRemoteSnapshot(ctx context.Context) error {
 		}(); err != nil {
 			return fmt.Errorf("failed to create remote snapshot directory: %s: %w", info.Name, err)
 		}
+		verifhook.CrashPoint("snap.restore.mkdir", info.Name)
 		if err := o.prepareRemoteSnapshot(ctx, info.Name, info.Labels); err != nil {
 			if o.allowInvalidMountsOnRestart {
 				log.G(ctx).WithError(err).Warnf("failed to restore remote snapshot %s; remove this snapshot manually", info.Name)
